@@ -7,7 +7,20 @@ use std::sync::atomic::{AtomicUsize, Ordering};
 use std::sync::Mutex;
 use std::time::Instant;
 
-pub const VERIF_DIR: &str = "/verif";
+/// The verification directory this binary belongs to (…/harness/target/<profile>/ggrs-verif -> …),
+/// so that a snapshot of /verif run elsewhere reads its own known findings and writes its own
+/// evidence; falls back to /verif.
+pub fn verif_dir() -> String {
+    if let Ok(d) = std::env::var("VERIF_HOME") {
+        return d;
+    }
+    std::env::current_exe()
+        .ok()
+        .and_then(|e| e.parent()?.parent()?.parent()?.parent().map(|p| p.to_path_buf()))
+        .filter(|p| p.join("known_findings.json").exists() || p.join("MANIFEST.json").exists())
+        .map(|p| p.to_string_lossy().to_string())
+        .unwrap_or_else(|| "/verif".to_string())
+}
 
 #[derive(Clone, Debug)]
 pub struct Ctx {
@@ -100,7 +113,7 @@ pub struct KnownFinding {
     pub case_contains: Vec<String>,
 }
 pub fn load_known_findings() -> Vec<KnownFinding> {
-    let path = format!("{VERIF_DIR}/known_findings.json");
+    let path = format!("{}/known_findings.json", verif_dir());
     let Ok(txt) = std::fs::read_to_string(&path) else { return vec![] };
     let v: Value = serde_json::from_str(&txt).expect("known_findings.json is not valid JSON");
     let mut out = vec![];
@@ -252,7 +265,7 @@ pub fn conclude(ctx: &Ctx, meta: Meta, results: Vec<CaseResult>, started: Instan
     // ---- replay files for new violations
     let mut replay_paths = vec![];
     if !new_viol.is_empty() {
-        let dir = format!("{VERIF_DIR}/replays");
+        let dir = format!("{}/replays", verif_dir());
         let _ = std::fs::create_dir_all(&dir);
         for (i, (cid, v, sample, witness)) in new_viol.iter().enumerate().take(5) {
             let safe: String = cid.chars().map(|c| if c.is_ascii_alphanumeric() || c == '-' { c } else { '_' }).collect();
@@ -290,7 +303,7 @@ pub fn conclude(ctx: &Ctx, meta: Meta, results: Vec<CaseResult>, started: Instan
         "violations": new_viol.len(),
     });
     if ctx.only_case.is_none() && !ctx.no_evidence {
-        let dir = format!("{VERIF_DIR}/evidence");
+        let dir = format!("{}/evidence", verif_dir());
         let _ = std::fs::create_dir_all(&dir);
         let path = format!("{dir}/{}.json", ctx.prop);
         let tmp = format!("{path}.tmp");
